@@ -227,10 +227,12 @@ def run_and_judge(prop, ctx, cfgbins, shards=1, compare=True, wrapper=None, forc
             for r in b:
                 if r.info == 'repr':  # representation-specific output (raw limbs): not comparable
                     continue
-                if r.only is not None and not all(r.only(l) for l in labels):
+                ls = labels if r.only is None else [l for l in labels if r.only(l)]
+                if len(ls) < 2:
                     continue
+                base = ls[0]
                 a = all_resp[base].get(r.id)
-                for l in labels[1:]:
+                for l in ls[1:]:
                     c = all_resp[l].get(r.id)
                     cross += 1
                     if strip_repr(a) != strip_repr(c):
